@@ -13,12 +13,14 @@ else
   rm -f lean/Gws/Generated/Facts.lean.tmp
 fi
 (cd tools/gotrans && go build -o ../../.build/gotrans .)
-.build/gotrans -repo "${VERIF_REPO:-/repo}" -lean lean/Gws/Generated/Trans.lean.tmp
-if ! cmp -s lean/Gws/Generated/Trans.lean.tmp lean/Gws/Generated/Trans.lean; then
-  mv lean/Gws/Generated/Trans.lean.tmp lean/Gws/Generated/Trans.lean
-else
-  rm -f lean/Gws/Generated/Trans.lean.tmp
-fi
+.build/gotrans -repo "${VERIF_REPO:-/repo}" -lean lean/Gws/Generated/Trans.lean.tmp -deque lean/Gws/Generated/TransDeque.lean.tmp
+for g in Trans TransDeque; do
+  if ! cmp -s lean/Gws/Generated/$g.lean.tmp lean/Gws/Generated/$g.lean; then
+    mv lean/Gws/Generated/$g.lean.tmp lean/Gws/Generated/$g.lean
+  else
+    rm -f lean/Gws/Generated/$g.lean.tmp
+  fi
+done
 (cd lean && lake build Gws gwsdriver)
 (cd harness && CGO_ENABLED=0 go build -tags verif -o ../.build/verifharness .)
 echo "setup ok"
